@@ -229,14 +229,18 @@ def r_C25(root):
     want = ["cur.A", "imp1.B", "imp2.C", "raise KeyError", "imp2.B"]
     if got != want:
         out.append(Finding("C25", "C25.a", rel, "TextXMetaModel.__getitem__", "lookup of A, B, C, D, imp2.B -> %s" % got, "name lookup on a sample metamodel (current namespace {A}, imports [{A,B}, {B,C}]) yields %s, documented order (current namespace, then imports in import order, qualified names directly) gives %s" % (got, want)))
-    ni = find(t, "TextXMetaModel._new_import"); inst += 3
+    ni = find_i(root, rel, "TextXMetaModel._new_import"); inst += 3
     load_call = next((c for c in calls(ni) if callee_name(c) == "metamodel_from_file"), None)
     if load_call is None: raise AnalysisError("import load call not found")
-    g = [ast.unparse(x) for x, pol in guards(load_call) if pol]
-    if not any("not in self.namespaces" in x for x in g): out.append(Finding("C25", "C25.b", rel, "TextXMetaModel._new_import", ast.unparse(stmt_of(load_call)), "grammar file is (re)loaded without the import-once guard"))
-    blk = block_of(stmt_of(load_call))
-    idx = [i for i, s in enumerate(blk) if s is stmt_of(load_call)][0]
-    if not any(any(callee_name(c) == "_enter_namespace" for c in calls(s)) for s in blk[:idx]): out.append(Finding("C25", "C25.b", rel, "TextXMetaModel._new_import", ast.unparse(stmt_of(load_call)), "namespace not registered before loading (import cycles would recurse)"))
+    g_at = [(a.replace(" ", ""), pol) for a, pol in sem.info(ni).atoms_at(load_call)]
+    if not any(a.endswith("inself.namespaces") and not pol for a, pol in g_at): out.append(Finding("C25", "C25.b", rel, "TextXMetaModel._new_import", ast.unparse(stmt_of(load_call)), "grammar file is (re)loaded without the import-once guard"))
+    fi_ni = sem.info(ni); cfg_ni = fi_ni.cfg
+    # the namespace is registered (a call of _enter_namespace, or — when that helper is inlined — its store into self.namespaces)
+    # on every path before the file of the import is loaded
+    regn = [n for n in cfg_ni.nodes if n.ast is not None and n.kind in ("stmt",) and (any(callee_name(c) == "_enter_namespace" for c in calls(n.ast)) or (isinstance(n.ast, ast.Assign) and any(isinstance(tg, ast.Subscript) and ast.unparse(tg.value) == "self.namespaces" for tg in n.ast.targets)))]
+    ln = fi_ni.node_of(load_call)
+    if not regn or ln is None or cfg_ni.paths_avoiding_consistent(cfg_ni.entry, ln, lambda m: m in regn) is not None:
+        out.append(Finding("C25", "C25.b", rel, "TextXMetaModel._new_import", ast.unparse(stmt_of(load_call)), "namespace not registered before loading (import cycles would recurse)"))
     fi = sem.info(ni)
     reg = [c for c in calls(ni) if isinstance(c.func, ast.Attribute) and c.func.attr in ("append", "insert", "extend", "appendleft") and "_imported_namespaces" in fi.text(c.func.value, at=c)]
     if not reg or any(c.func.attr != "append" for c in reg): out.append(Finding("C25", "C25.c", rel, "TextXMetaModel._new_import", ast.unparse(reg[0]) if reg else "", "imported namespace is not appended in import order"))
